@@ -85,6 +85,11 @@ type StressCfg struct {
 	StopSpin  int    `json:"stop_spin,omitempty"`
 	Stoppers  int    `json:"stoppers,omitempty"`
 	PlainStop bool   `json:"plain_stop,omitempty"`
+	// the carousel form (stress_multi_test.go): Groups live groups at once, Doers goroutines permanently in
+	// Do (0 = one per P), Stoppers goroutines replacing and stopping groups, GOMAXPROCS Gmp (0 = 4 x cores)
+	Carousel bool `json:"carousel,omitempty"`
+	Groups   int  `json:"groups,omitempty"`
+	Gmp      int  `json:"gmp,omitempty"`
 }
 
 func (c Case) String() string {
@@ -857,6 +862,19 @@ func TestVerif(t *testing.T) {
 			}
 			b, _ := json.Marshal(c.Stress)
 			fmt.Printf("replay of stress configuration %s (first seen in round %d)\n", b, c.Round)
+			if c.Stress.Carousel {
+				for n := 0; n < 10; n++ {
+					f, st := stressCarousel(*c.Stress, 1500*time.Millisecond)
+					if f != nil {
+						fmt.Printf("  FAILS (slice %d, after %d Do calls and %d StopAndWait calls) %s: %s\n", n, st.dos, st.stops, f.kind, f.what)
+						os.Exit(1)
+					}
+				}
+				fmt.Printf("  no clause violated in 10 slices of 1.5 s\n")
+				_, st := stressCarousel(*c.Stress, 500*time.Millisecond)
+				fmt.Printf("  (a further slice of 0.5 s: %d Do calls, %d StopAndWait calls)\n", st.dos, st.stops)
+				return
+			}
 			until := time.Now().Add(15 * time.Second)
 			n := 0
 			for ; n < 400000 && time.Now().Before(until); n++ {
@@ -926,9 +944,11 @@ func TestVerif(t *testing.T) {
 	// real-threads stress of the barrier clause: a bounded number of rounds, ~1.5 s (quick), more in the
 	// thorough tier / escalated search
 	if env.Thorough() || env.Deep {
-		stressBarrier(res, 400000, 20*time.Second)
+		stressBarrier(res, 400000, 12*time.Second)
+		stressCarouselPhase(res, 12*time.Second)
 	} else {
-		stressBarrier(res, 12000, 1500*time.Millisecond)
+		stressBarrier(res, 12000, 600*time.Millisecond)
+		stressCarouselPhase(res, 1200*time.Millisecond)
 	}
 	rnd := vlib.NewRand(env.Seed)
 	seed := func() int64 { return int64(rnd.Uint64() >> 1) }
